@@ -580,6 +580,9 @@ DIRECTED = [
     ("tab-in-literal", "<%\n\ts = 'a\tb'\n%>${repr(s)}", {}, False, "'a\\tb'", None),
     ("default-pow", '<%def name="f(a=2**3, b=(1 if 0 else 2) + 1)">${a},${b}</%def>${f()}', {}, False, "8,3", None),
     ("default-fstring", "<%def name=\"f(a=f'{1+1}x')\">${a}</%def>${f()}", {}, False, "2x", None),
+    ("page-default-unhashable", '<%page args="z=[1, 2], y={\'a\': 1}, s={3}"/>${z}${y}${s}', {}, False, "[1, 2]{'a': 1}{3}", None),
+    ("page-default-unhashable-given", '<%page args="z=[1, 2]"/>${z}', {"z": [9]}, False, "[9]", None),
+    ("def-default-unhashable", '<%def name="f(a=[1, {2: 3}], *b, c={4}, **d)">${a}${c}</%def>${f()}', {}, False, "[1, {2: 3}]{4}", None),
     ("default-kwsplat", '<%! D = {"sep": "-"} %><%def name="f(a=dict(**D))">${a}</%def>${f()}', {}, False, "{'sep': '-'}", None),
 ]
 
